@@ -31,6 +31,7 @@ import (
 	"github.com/rulego/streamsql/types"
 	"github.com/rulego/streamsql/utils/cast"
 	"github.com/rulego/streamsql/utils/fieldpath"
+	"github.com/rulego/streamsql/verifhook"
 )
 
 var _ Window = (*GlobalWindow)(nil)
@@ -405,6 +406,7 @@ func (gw *GlobalWindow) Add(data any) {
 	row := types.Row{Data: data, Timestamp: t}
 	select {
 	case gw.triggerChan <- row:
+		verifhook.At("gw.add", gw, 0, 0, 0)
 	case <-gw.ctx.Done():
 	}
 }
@@ -433,6 +435,7 @@ func (gw *GlobalWindow) Start() {
 					return
 				}
 				gw.processRow(row)
+				verifhook.At("gw.row", gw, 0, 0, 0)
 			case <-tickChan:
 				gw.reapIdleKeys(time.Now())
 			case <-gw.ctx.Done():
